@@ -195,6 +195,21 @@ func corrC05(outDir string, seed uint64, tier string, replay string) *report {
 					rep.sample(map[string]interface{}{"scheme": s.name, "mutated_hash": h, "result": fmt.Sprint(err)})
 				}
 			}
+			// Argon2: every lane count an attacker can write in a hash string, with the smallest memory (the cost
+			// budget of the property bounds m and t, not p)
+			if s.name == "argon2" {
+				for p := 1; p <= 255; p++ {
+					if tier != "thorough" && p > 8 && p%7 != 0 && p%64 > 1 && p != 255 {
+						continue
+					}
+					h := fmt.Sprintf("$argon2id$v=19$m=8,t=1,p=%d$c2FsdHNhbHRzYWx0$c29tZWRpZ2VzdHNvbWVkaWdlc3Q", p)
+					pan, hung := guarded(func() { s.check(h, "pw") })
+					bad("argon2.Check", map[string]interface{}{"hash": h}, pan, hung)
+					pan, hung = guarded(func() { crypt.Check(h, "pw") })
+					bad("crypt.Check", map[string]interface{}{"hash": h}, pan, hung)
+					rep.count("argon2 lanes "+h, true)
+				}
+			}
 			// Key and NewHash with arbitrary lengths
 			for i := 0; i < nMut/5; i++ {
 				a := keyArgs{tag: s.tag, pw: r.bytes(r.intn(4097)), salt: []byte(r.str(r.intn(70), alphaCrypt+"@$"))}
@@ -209,7 +224,7 @@ func corrC05(outDir string, seed uint64, tier string, replay string) *report {
 					a.nums = []int64{int64(r.intn(7))}
 					a.hasOpts, a.prefix = r.intn(2) == 0, []string{"$2$", "$2a$", "$2b$", "x"}[r.intn(4)]
 				case "argon2":
-					a.nums = []int64{int64(r.intn(64)), int64(r.intn(3)), int64(r.intn(5))}
+					a.nums = []int64{int64(r.intn(64)), int64(r.intn(3)), int64([]int{0, 1, 2, 3, 4, 63, 64, 65, 128, 192, 255}[r.intn(11)])}
 					a.salt = []byte(r.str(r.intn(30), b64Std+"@"))
 					a.hasOpts, a.prefix, a.optNum = r.intn(2) == 0, []string{"$argon2d$", "$argon2i$", "$argon2id$", ""}[r.intn(4)], []int64{0x10, 0x13, 7}[r.intn(3)]
 				}
